@@ -91,6 +91,7 @@ func init() {
 		"os.LookupEnv":          func(fr *frame, a []value) value { return tuple{"", false} },
 		"syscall.Getenv":        func(fr *frame, a []value) value { return tuple{"", false} },
 		"encoding/json.Marshal": extJSONMarshal,
+		"encoding/json.Unmarshal": extJSONUnmarshal,
 		"strconv.ParseUint":     extParseUint,
 		"strconv.Atoi":          extAtoi,
 		"fmt.Sscanf":            extSscanf,
@@ -1193,6 +1194,19 @@ func extJSONMarshal(fr *frame, args []value) value {
 	res, ok := fr.i.invoke(fr, it, "MarshalJSON")
 	if !ok {
 		panic(engineError("json.Marshal of " + it.t.String() + " (no MarshalJSON method; reflection-based encoding is not modelled)"))
+	}
+	return res
+}
+
+// encoding/json.Unmarshal into a value whose type provides UnmarshalJSON.
+func extJSONUnmarshal(fr *frame, args []value) value {
+	it, ok := args[1].(iface)
+	if !ok || it.t == nil {
+		panic(engineError("json.Unmarshal into nil"))
+	}
+	res, ok := fr.i.invoke(fr, it, "UnmarshalJSON", args[0])
+	if !ok {
+		panic(engineError("json.Unmarshal into " + it.t.String() + " (no UnmarshalJSON method; reflection-based decoding is not modelled)"))
 	}
 	return res
 }
